@@ -36,21 +36,26 @@ def run(ctx):
     sizes = [0, 1, 254, 255, 256, 257, 300] if ctx.quick() else [0, 1, 2, 127, 254, 255, 256, 257, 300, 511, 512, 765, 1000]
     # mix "short": only short routes, the route count (255) is the binding limit; mix "long": every domain pattern has
     # ~250 characters, the frame payload (16 KiB) is the binding limit
+    # mix "fwd": only port-forward endpoints with ~50-character routing keys and ~65-character targets
     long_sizes = [120, 300] if ctx.quick() else [60, 120, 254, 300, 512, 1000]
-    tr = F.traces(ctx, "TestZZVFloodScale", {"ZZV_SIZES": ",".join(map(str, sizes)), "ZZV_SIZES_LONG": ",".join(map(str, long_sizes))},
+    fwd_sizes = [70, 240] if ctx.quick() else [70, 130, 240, 255, 400]
+    tr = F.traces(ctx, "TestZZVFloodScale", {"ZZV_SIZES": ",".join(map(str, sizes)), "ZZV_SIZES_LONG": ",".join(map(str, long_sizes)),
+                                             "ZZV_SIZES_FWD": ",".join(map(str, fwd_sizes))},
                   "c06scale", invs=SCALE_INVS)
     F.report(ctx, "C06", None, [tr])
     scale = [r for r in tr["records"] if r.get("k") == "scale"]
     cases = [r for r in tr["records"] if r.get("k") == "scalecase"]
-    if len(scale) != 5 * (len(sizes) + len(long_sizes)):
-        raise vf.Infra("scale harness reported %d of %d cases" % (len(scale), 5 * (len(sizes) + len(long_sizes))))
+    ncases = len(sizes) + len(long_sizes) + len(fwd_sizes)
+    if len(scale) != 5 * ncases:
+        raise vf.Infra("scale harness reported %d of %d cases" % (len(scale), 5 * ncases))
     st, trn = F.coverage(runs)
     ctx.evidence("model_checking",
                  assumptions=["model: count field modulo 3 / 4 (2 in thorough) with up to 3 exit routes + presence; the real modulus 256 is "
                               "exercised by the recorded executions with N = %s short routes (count-bound) and N = %s routes with ~250-character "
-                              "domain patterns (frame-size-bound)" % (sizes, long_sizes),
+                              "domain patterns and long forward keys/targets (frame-size-bound), N = %s forward-only routes with long keys and "
+                              "targets" % (sizes, long_sizes, fwd_sizes),
                               "route sets are mixed CIDR / exact and wildcard domain (some of 250 characters) / forward routes"],
-                 states=st, transitions=trn, traces_validated_against_impl=len(sizes) + len(long_sizes), exhaustive=True,
+                 states=st, transitions=trn, traces_validated_against_impl=ncases, exhaustive=True,
                  scale_cases=len(scale), scale_cases_equal=len([r for r in scale if r["missing"] == 0 and r["extra"] == 0]),
                  announce_frames={"%s/%s" % (c["n"], c["mix"]): c["announce_frames"] for c in cases},
                  trace_events=tr["summary"]["events"], trace_highwater=tr["v"]["hw"], trace_accepted=tr["v"]["accepted"],
